@@ -2,7 +2,7 @@
 
 VERIF_AMBIENT (comma list) puts the process into a particular HISTORY before the cases run; the runner compares the results with
 those of a fresh process (the properties hold for every history of the process-wide configuration):
-  failed  -- configuration calls that are rejected (unknown locale, invalid week day): they must leave everything as it was
+  failed  -- configuration calls that are rejected (unknown locale, invalid week day) and ordinary API calls that raise: they must leave everything as it was
   week    -- week_starts_at(SUNDAY), week_ends_at(SATURDAY)          (documented configuration API)
   locale  -- set_locale("de")
   localtz -- set_local_timezone(Asia/Kathmandu)
@@ -22,6 +22,22 @@ def ambient(spec):
             try:
                 f(a)
             except Exception:  # noqa: the call is expected to be rejected
+                pass
+        # ordinary API calls that are REJECTED (wrong argument type, result outside years 1..9999, unknown zone, malformed text): an exception
+        # raised half-way through a call must leave no trace either
+        import datetime as _dt
+        x = pendulum.datetime(2021, 3, 28, 1, 30, tz="Europe/Paris")
+        for thunk in (lambda: x.astimezone("Europe/Paris"), lambda: pendulum.DateTime.min.in_timezone("America/New_York"),
+                      lambda: pendulum.DateTime.max.in_timezone("Asia/Tokyo"), lambda: pendulum.timezone("Nowhere/Land"),
+                      lambda: x.add(years=9000), lambda: x.subtract(years=3000), lambda: x - "yesterday", lambda: pendulum.parse("not a date"),
+                      lambda: pendulum.from_format("2021", "YYYY-MM"), lambda: x.start_of("fortnight"), lambda: x.nth_of("month", 7, 1),
+                      lambda: pendulum.duration(days=10 ** 10), lambda: pendulum.duration(days=1) // 0, lambda: pendulum.interval(x, "tomorrow"),
+                      lambda: pendulum.time(1, 2, 3) + _dt.timedelta(days=2), lambda: x.set(month=13), lambda: x.replace(hour=25),
+                      lambda: pendulum.datetime(2021, 3, 28, 2, 30, tz="Europe/Paris", raise_on_unknown_times=True),
+                      lambda: pendulum.date(2021, 2, 30), lambda: x.format("YYYY", locale="tlh"), lambda: x.diff_for_humans(locale="tlh")):
+            try:
+                thunk()
+            except Exception:  # noqa
                 pass
     if "week" in what:
         pendulum.week_starts_at(pendulum.SUNDAY)
